@@ -225,4 +225,110 @@ theorem tok_joinWords (ws : List Word) : (∀ w ∈ ws, w.getLast? ≠ some 92) 
       simp only [tok, show ¬ (32 : Nat) = 34 by decide, if_false, if_true, List.nil_append]
       rw [ih']
 
+
+/-! ### the universal rendering (mixed quoting) -/
+
+theorem tok_encChar (c : Nat) (rest : List Nat) (cur : Word) :
+    tok false (encChar c ++ rest) cur = tok false rest (cur ++ [c]) := by
+  unfold encChar
+  by_cases h32 : c = 32
+  · subst h32
+    simp only [if_true, List.cons_append, List.nil_append]
+    rw [tok]; simp only [show ¬ (34 : Nat) ≠ 34 ↔ True by decide, if_true]
+    rw [tok_true_other _ _ (by decide) (by decide), tok_true_quote]
+  · by_cases h34 : c = 34
+    · subst h34
+      simp only [h32, if_false, if_true, List.cons_append, List.nil_append]
+      rw [tok]; simp only [if_true]
+      rw [tok]; simp only [show ¬ (92 : Nat) = 34 by decide, if_false, if_true]
+      rw [tok_true_quote]
+    · simp only [h32, h34, if_false, List.cons_append, List.nil_append]
+      rw [tok]; simp [h32, h34]
+
+theorem tok_flatMap_enc (w : Word) : ∀ (rest : List Nat) (cur : Word),
+    tok false (w.flatMap encChar ++ rest) cur = tok false rest (cur ++ w) := by
+  induction w with
+  | nil => intro rest cur; simp
+  | cons c cs ih =>
+    intro rest cur
+    simp only [List.flatMap_cons, List.append_assoc]
+    rw [tok_encChar, ih]; simp
+
+theorem tok_renderWord (w : Word) (rest : List Nat) (cur : Word) :
+    tok false (renderWord w ++ rest) cur = tok false rest (cur ++ w) := by
+  unfold renderWord
+  cases w with
+  | nil =>
+    simp only [List.isEmpty_nil, if_true, List.cons_append, List.nil_append, List.append_nil]
+    rw [tok]; simp only [if_true]; rw [tok_true_quote]
+  | cons c cs => simp only [List.isEmpty_cons, Bool.false_eq_true, if_false]; exact tok_flatMap_enc _ _ _
+
+theorem tok_joinTerminated (ws : List Word) : tok false (joinTerminated ws) [] = ws := by
+  induction ws with
+  | nil => simp [joinTerminated, tok]
+  | cons w ws ih =>
+    have : joinTerminated (w :: ws) = renderWord w ++ (32 :: joinTerminated ws) := by simp [joinTerminated]
+    rw [this, tok_renderWord, tok]
+    simp only [show ¬ (32 : Nat) = 34 by decide, if_false, if_true, List.nil_append, ih]
+
+theorem tok_joinSeparated (ws : List Word) (hl : ws.getLast? ≠ some []) : tok false (joinSeparated ws) [] = ws := by
+  induction ws with
+  | nil => simp [joinSeparated, tok]
+  | cons w ws ih =>
+    cases ws with
+    | nil =>
+      have hne : w ≠ [] := by simpa using hl
+      have := tok_renderWord w [] []
+      simp only [List.append_nil, List.nil_append] at this
+      simp only [joinSeparated, this]
+      cases w with
+      | nil => exact absurd rfl hne
+      | cons a as => simp [tok]
+    | cons w' ws' =>
+      have ih' := ih (by simpa [List.getLast?_cons_cons] using hl)
+      simp only [joinSeparated]
+      rw [tok_renderWord, tok]
+      simp only [show ¬ (32 : Nat) = 34 by decide, if_false, if_true, List.nil_append]
+      rw [ih']
+
+theorem encChar_nonul (c : Nat) (h : c ≠ 0) : ∀ x ∈ encChar c, x ≠ 0 := by
+  unfold encChar
+  intro x hx
+  by_cases h32 : c = 32
+  · simp [h32] at hx; omega
+  · by_cases h34 : c = 34
+    · simp [h34] at hx; omega
+    · simp [h32, h34] at hx; subst hx; exact h
+
+theorem renderWord_nonul (w : Word) (h : ∀ c ∈ w, c ≠ 0) : ∀ x ∈ renderWord w, x ≠ 0 := by
+  unfold renderWord
+  intro x hx
+  cases w with
+  | nil => simp at hx; subst hx; decide
+  | cons a as =>
+    simp only [List.isEmpty_cons, Bool.false_eq_true, if_false, List.mem_flatMap] at hx
+    obtain ⟨c, hc, hxc⟩ := hx
+    exact encChar_nonul c (h c hc) x hxc
+
+theorem joinTerminated_nonul (ws : List Word) (h : ∀ w ∈ ws, ∀ c ∈ w, c ≠ 0) : ∀ x ∈ joinTerminated ws, x ≠ 0 := by
+  intro x hx
+  simp only [joinTerminated, List.mem_flatMap, List.mem_append, List.mem_singleton] at hx
+  obtain ⟨w, hw, hx | hx⟩ := hx
+  · exact renderWord_nonul w (h w hw) x hx
+  · subst hx; decide
+
+theorem joinSeparated_nonul (ws : List Word) (h : ∀ w ∈ ws, ∀ c ∈ w, c ≠ 0) : ∀ x ∈ joinSeparated ws, x ≠ 0 := by
+  induction ws with
+  | nil => intro x hx; simp [joinSeparated] at hx
+  | cons w ws ih =>
+    cases ws with
+    | nil => intro x hx; exact renderWord_nonul w (h w (by simp)) x (by simpa [joinSeparated] using hx)
+    | cons w' ws' =>
+      intro x hx
+      simp only [joinSeparated, List.mem_append, List.mem_cons] at hx
+      rcases hx with hx | hx | hx
+      · exact renderWord_nonul w (h w (by simp)) x hx
+      · subst hx; decide
+      · exact ih (fun y hy => h y (by simp [hy])) x hx
+
 end Nstd.Args
